@@ -728,6 +728,7 @@ func recordRPC(args []string) error {
 			}
 			req.Queries = append(req.Queries, toPBQuery(dict, q, rng, true))
 		}
+		sweepBefore, gsweepBefore := sweep, gsweep
 		deepSlot := i%10 == 9 // deep nesting takes this request: the sweeps keep their next value for a later slot
 		follow := afterFail > 0
 		if follow {
@@ -800,7 +801,8 @@ func recordRPC(args []string) error {
 			req.Queries = []*proto.Query{{Expr: e}}
 		}
 		// mutate the wire bytes; keep the mutation when the result still decodes
-		if b, err := pb.Marshal(req); err == nil && len(b) > 0 && rng.Intn(2) == 0 {
+		systematic := follow || deepSlot || (i%3 == 1 && sweepBefore != sweep) || (i%3 == 2 && gsweepBefore != gsweep) || (i%3 == 0 && i/3 < 2*len(strangeColumns))
+		if b, err := pb.Marshal(req); err == nil && len(b) > 0 && rng.Intn(2) == 0 && !systematic { // the sweeps go out as they are
 			mb := append([]byte{}, b...)
 			for k := 1 + rng.Intn(3); k > 0; k-- {
 				switch rng.Intn(3) {
